@@ -208,6 +208,11 @@ PROPS = {
              "bound": "two flat names with the fixed label layout 1+2 content octets and the root label; all content octets",
              "what": "Name: composed_cmp == octet order of the wire forms, lowercase_composed_cmp == octet order of the lower-cased "
                      "wire forms, on the compiled code (counterpart of unit nameorder, independent of fast paths and adapters)"},
+            {"group": "g0", "name": "c04_charstr_order_eq_hash_len6_bounded", "kind": "bounded", "tier": "quick",
+             "bound": "two character strings of at most 6 octets, all contents",
+             "what": "CharStr: == is equality up to ASCII case; cmp/partial_cmp == order of the lower-cased octets, Equal exactly on "
+                     "equal values; equal strings write the same bytes to any Hasher; canonical_cmp == octet order of the wire form "
+                     "(length octet, octets as they are)"},
             {"group": "g0", "name": "c04_record_eq_implies_hash_eq", "kind": "complete", "tier": "quick",
              "what": "Record<u8, A>: == <=> (class, data) equal, for all classes, TTL pairs and addresses; equal records write the same "
                      "bytes to any Hasher (the generic Hash impl does not look into the owner type)"},
